@@ -29,7 +29,7 @@ RULE = (
 )
 ASSUMPTIONS = ["reproducibility across machines / library versions cannot be varied here"]
 OPS = ops.PLAIN_OPS + ops.SKIP_OPS + ops.ATTR_OPS + ops.STRUCT_OPS + ops.AUX_OPS + ("control", "control", "control", "block", "build", "seeds", "setcfg")
-NAME_POOL = ["a", "B", "c1", "x_2", "Zed", "m", "k9", "q", "Ab", "aa", "y", "w0"]
+NAME_POOL = ["a", "B", "c1", "x_2", "Zed", "m", "k9", "q", "Ab", "aa", "y", "w0", "a_1", "B_x", "x"]
 
 
 @st.composite
